@@ -363,3 +363,78 @@ func vh_dial_host_tls() {
 	}
 	vObserve("dials", len(d.dials))
 }
+
+// ---- from ClusterConfig to what connections are dialled with (connConfig) ----
+//
+// SslOpts given => every connection of the default dialer is wrapped in TLS with the configuration
+// setupTLSConfig derives (the documented verification table); no SslOpts => no TLS configuration; a broken
+// CA / key-pair file is an error, never a silent plaintext fallback; the authenticator settings travel
+// unchanged; a custom HostDialer is used as given.
+type vHostDialer struct{}
+
+func (vHostDialer) DialHost(ctx context.Context, host *HostInfo) (*DialedHost, error) {
+	return nil, vErrIO
+}
+
+func vh_conn_config() {
+	cfg := &ClusterConfig{}
+	withSSL := vBool("ssl_opts")
+	hostVerification := vBool("host_verification")
+	skip := vBool("insecure_skip_verify")
+	haveUserCfg := vBool("have_tls_config")
+	vReadFileFails, vAppendOK, vKeyPairFails = false, true, false
+	caBroken := false
+	if withSSL {
+		cfg.SslOpts = &SslOptions{EnableHostVerification: hostVerification}
+		if haveUserCfg {
+			cfg.SslOpts.Config = &tls.Config{InsecureSkipVerify: skip}
+		}
+		if vBool("ca_path") {
+			cfg.SslOpts.CaPath = "ca.pem"
+			if vBool("ca_unreadable") {
+				vReadFileFails = true
+				caBroken = true
+			}
+		}
+	}
+	custom := vBool("custom_host_dialer")
+	if custom {
+		cfg.HostDialer = vHostDialer{}
+	}
+	auth := PasswordAuthenticator{Username: "u", Password: "p"}
+	if vBool("authenticator") {
+		cfg.Authenticator = auth
+	}
+	cc, err := connConfig(cfg)
+	if custom {
+		vAssert(err == nil && cc != nil && cc.HostDialer == HostDialer(vHostDialer{}), "C20/connconfig/custom-host-dialer-is-used-as-given")
+		return
+	}
+	if withSSL && caBroken {
+		vAssert(err != nil && cc == nil, "C20/connconfig/broken-ca-file-is-an-error-not-a-plaintext-fallback")
+		return
+	}
+	vAssert(err == nil && cc != nil, "C20/connconfig/built")
+	if cc == nil {
+		return
+	}
+	hd, ok := cc.HostDialer.(*defaultHostDialer)
+	vAssert(ok && hd != nil, "C20/connconfig/default-host-dialer")
+	if ok && hd != nil {
+		vAssert((hd.tlsConfig != nil) == withSSL, "C20/connconfig/tls-exactly-when-ssl-options-are-given")
+		if withSSL && hd.tlsConfig != nil {
+			wantVerify := hostVerification
+			if haveUserCfg {
+				wantVerify = !skip || hostVerification
+			}
+			vAssert(hd.tlsConfig.InsecureSkipVerify == !wantVerify, "C20/connconfig/dials-with-the-documented-verification-setting")
+		}
+	}
+	if cfg.Authenticator != nil {
+		pa, isPA := cc.Authenticator.(PasswordAuthenticator)
+		vAssert(isPA && pa.Username == "u" && pa.Password == "p" && len(pa.AllowedAuthenticators) == 0, "C20/connconfig/authenticator-travels-unchanged")
+	} else {
+		vAssert(cc.Authenticator == nil && cc.AuthProvider == nil, "C20/connconfig/no-authenticator-invented")
+	}
+	vObserve("tls", withSSL)
+}
